@@ -17,6 +17,8 @@ PROFILES = {
     'C01': [
         ('all-variants', 260, 2600, dict(rake_p=0.45), dict(probe_level=0, illegal=0.05)),
         ('short-stacks-antes', 140, 1400, dict(stacks='short', ante_p=0.9, rake_p=0.3), dict(probe_level=0, illegal=0.0, fold=0.05)),
+        ('split-pots-boards', 160, 1600, dict(variants=HILO + ['PO', 'NT', 'FO/8'], stacks='mixed', boards=(1, 2, 2), mode='C'),
+         dict(probe_level=0, illegal=0.0, fold=0.02, allin=0.15, runout=0.8)),
     ],
     'C02': [
         ('showdowns-multiway', 220, 2200, dict(stacks='short', variants=FLOP + STUD, ante_p=0.7),
@@ -38,6 +40,8 @@ PROFILES = {
          dict(probe_level=0, illegal=0.0, fold=0.0, raise_=0.1, explicit_cards=0.2, discard=0.95)),
         ('unknown-cards', 60, 600, dict(variants=['NT', 'PO', 'FT', 'F2L3D', 'FB'], no_autos=('Hole cards showing or mucking',)),
          dict(probe_level=0, illegal=0.0, unknown_cards=0.3, fold=0.3)),
+        ('partial-shows-all-in', 100, 1000, dict(variants=FLOP + STUD, mode='C', stacks='short', no_autos=('Hole cards showing or mucking',)),
+         dict(probe_level=0, illegal=0.0, fold=0.03, allin=0.3, partial_show=0.6)),
     ],
     'C07': [
         ('all-variants-random-automation', 300, 3000, dict(), dict(probe_level=0, illegal=0.1)),
